@@ -7,9 +7,9 @@
 #include <chrono>
 using namespace vf;
 
-enum OpKind { EV0, EV3, EV7, EVS, TG0, TG1, TG2, TG3, TG4, ANY_OFF, ANY_ON, ST_RKF45, ST_RK4, ST_MSADAMS, ADAPT_TOGGLE, TOL_TOGGLE, HMIN_TOGGLE, HMAX_TOGGLE, MOVE_CTOR, MOVE_ASSIGN_FRESH, MOVE_ASSIGN_USED, REINIT, NOPS };
+enum OpKind { EV0, EV3, EV7, EVS, TG0, TG1, TG2, TG3, TG4, ANY_OFF, ANY_ON, ST_RKF45, ST_RK4, ST_MSADAMS, ADAPT_TOGGLE, TOL_TOGGLE, HMIN_TOGGLE, HMAX_TOGGLE, MOVE_CTOR, MOVE_ASSIGN_FRESH, MOVE_ASSIGN_USED, MOVE_ASSIGN_REUSE_SOURCE, REINIT, NOPS };
 static const char* OPNAME[] = {"Evolve(0)", "Evolve(0.3)", "Evolve(0.7)", "Evolve(5e-4)", "toggle-Coherent", "toggle-NonCoherent", "toggle-OtherRho", "toggle-GammaScalar", "toggle-OtherScalar", "AnyNumerics(false)", "AnyNumerics(true)",
-                               "stepper-rkf45", "stepper-rk4", "stepper-msadams", "toggle-adaptive", "toggle-tolerance", "toggle-h_min(1e-3)", "toggle-h_max(0.05)", "move-construct", "move-assign-into-fresh", "move-assign-into-used", "re-ini"};
+                               "stepper-rkf45", "stepper-rk4", "stepper-msadams", "toggle-adaptive", "toggle-tolerance", "toggle-h_min(1e-3)", "toggle-h_max(0.05)", "move-construct", "move-assign-into-fresh", "move-assign-into-used", "move-assign-then-reuse-the-source", "re-ini"};
 
 struct Model {
   Problem P; double tini, t; std::vector<double> y; bool any; int stepper; bool adaptive; bool tight; bool hmin_raised; bool hmax_lowered; bool refused; int segments; double clock_slack;
@@ -103,6 +103,26 @@ static bool run_history(const std::vector<int>& h, int nsun, bool report) {
         n->Set_rel_error(1e-1); n->Set_abs_error(1e-1); n->Set_h(0.5); n->Set_NumSteps(3); n->Set_GSL_step(gsl_odeiv2_step_rk2); n->Set_h_max(0.9); n->set_flat(probe_state(q, 1)); n->Evolve(0.2);
         n->Set_AdaptiveStep(!m.adaptive);
         *n = std::move(*cur); cur->P.kappa = 77; cur.reset(); cur = std::move(n); cur->log = CallLog();
+      } break;
+      case MOVE_ASSIGN_REUSE_SOURCE: {
+        // the moved-from object stays alive, is re-initialised with a problem of its own and evolved while the new owner exists:
+        // it gets ITS solution through ITS callbacks, and the new owner's clock, state and views do not move
+        std::unique_ptr<Probe> n(new Probe()); *n = std::move(*cur);
+        std::unique_ptr<Probe> old = std::move(cur); cur = std::move(n); cur->log = CallLog();
+        std::vector<double> keep = cur->get_flat(); double keep_t = cur->Get_t();
+        Problem q = m.P; q.kappa = 0.1; q.kappa2 = 0.0; bool qs[5] = {true, true, false, true, false}; for (int b = 0; b < 5; b++) q.sw[b] = qs[b];
+        try {
+          old->P = q; old->ini(q.nx, q.d, q.nrho, q.nsc, 7.0); old->apply_switches(); old->Set_GSL_step(gsl_odeiv2_step_rkf45); old->Set_AdaptiveStep(true); old->Set_rel_error(1e-10); old->Set_abs_error(1e-10); old->Set_h(1e-4);
+          old->Set_h_min(std::numeric_limits<double>::min()); old->Set_h_max(std::numeric_limits<double>::max());
+          std::vector<double> z0 = probe_state(q, 2); old->set_flat(z0); old->log = CallLog();
+          old->Evolve(0.3);
+          std::vector<double> zw = q.exact(z0, 7.0, 7.3), zg = old->get_flat();
+          if (!(maxdiff(zg, zw) <= 1e-6 * std::max(1.0, maxabs(zw))) || !(std::fabs(old->Get_t() - 7.3) <= 1e-12) || (old->log.last_this && old->log.last_this != old.get()) || old->log.pre == 0)
+            viol("moved-from-solver:re-initialised-and-evolved:wrong-result-or-callbacks-on-another-object", i, ",\"err\":" + jnum(maxdiff(zg, zw)) + ",\"t\":" + jnum(old->Get_t()));
+        } catch (const std::exception& ex) { viol("moved-from-solver:re-initialise-and-evolve-throws", i, ",\"what\":" + jstr(ex.what())); }
+        std::vector<double> now = cur->get_flat(); bool same = now.size() == keep.size(); for (size_t k = 0; same && k < now.size(); k++) if (!ref::biteq(now[k], keep[k])) same = false;
+        if (!same || cur->Get_t() != keep_t || !cur->views_coincide() || cur->log.pre != 0 || cur->log.hi != 0 || cur->log.gsc != 0) viol("moved-from-solver:its-evolution-disturbed-the-new-owner", i, ",\"t\":" + jnum(cur->Get_t()));
+        old.reset(); cur->log = CallLog();
       } break;
       case REINIT: {
         m.tini = 2.25; m.t = 2.25; m.y = probe_state(m.P, 1); m.segments = 0; m.clock_slack = 0;
